@@ -18,6 +18,7 @@ package layer4
 import (
 	"bufio"
 	"bytes"
+	"context"
 	"encoding/binary"
 	"encoding/json"
 	"errors"
@@ -34,7 +35,11 @@ import (
 	"testing"
 	"time"
 
+	"github.com/caddyserver/caddy/v2"
+	"github.com/caddyserver/caddy/v2/modules/caddyhttp"
 	"go.uber.org/zap"
+	"go.uber.org/zap/zapcore"
+	"go.uber.org/zap/zaptest/observer"
 )
 
 // ---------------------------------------------------------------- payloads
@@ -72,6 +77,13 @@ func vC09Parse(b []byte) (vC09Head, bool) {
 		return vC09Head{}, false
 	}
 	return vC09Head{int(b[2]), int(b[3]), int(binary.BigEndian.Uint32(b[4:])), int(binary.BigEndian.Uint32(b[8:])), int(binary.BigEndian.Uint32(b[12:]))}, true
+}
+
+func boolInt(b bool) int {
+	if b {
+		return 1
+	}
+	return 0
 }
 
 // ---------------------------------------------------------------- plans
@@ -122,6 +134,7 @@ type vPlan struct {
 	Back     bool              `json:"back"`  // backpressure count scenario
 	Seq      bool              `json:"seq"`   // sequential: every action waits for the visible effect of the previous one
 	Addrs    int               `json:"addrs"` // which client address set (vC09Addrs); scripted mode only
+	Match    bool              `json:"match"` // the route list has a matcher that needs data: the first Read is the 2048-byte prefetch
 }
 
 func (p *vPlan) kind(client, ord int) vHKind {
@@ -134,7 +147,45 @@ func (p *vPlan) kind(client, ord int) vHKind {
 	return vHKind{Mode: vHEcho, Buf: 9000}
 }
 
-var vC09Sizes = []int{16, 17, 100, 511, 512, 513, 1200, 1472, 4096, 8999, 9000}
+var vC09Sizes = []int{16, 17, 100, 511, 512, 513, 1200, 1472, 2047, 2048, 2049, 4096, 8999, 9000}
+
+// handler read buffers; 2048 is also the size of the matching-phase prefetch read
+var vC09Bufs = []int{9000, 9000, 4096, 2048, 2048, 1024, 512, 100, 1}
+
+// vC09PickSize: datagram sizes around the reader's buffer size (buf-1, buf, buf+1), around the
+// prefetch chunk (2047..2049), the usual boundaries, or anything in 16..9000
+func vC09PickSize(r *vRng, buf int, small bool) int {
+	if buf == 1 {
+		return vC09Hdr + r.Intn(24)
+	}
+	clamp := func(x int) int {
+		if x < vC09Hdr {
+			return vC09Hdr
+		}
+		if x > 9000 {
+			return 9000
+		}
+		return x
+	}
+	var sz int
+	switch r.Intn(6) {
+	case 0, 1:
+		if buf <= 0 {
+			buf = 9000
+		}
+		sz = clamp(buf - 1 + r.Intn(3))
+	case 2:
+		sz = 2047 + r.Intn(3)
+	case 3:
+		sz = vC09Hdr + r.Intn(9000-vC09Hdr+1)
+	default:
+		sz = vC09Sizes[r.Intn(len(vC09Sizes))]
+	}
+	if small && sz > 1500 {
+		sz = vC09Hdr + r.Intn(1400)
+	}
+	return sz
+}
 
 func vC09Corpus() []vPlan {
 	mk := func(c, s int) vSend { return vSend{Client: c, Size: s} }
@@ -209,6 +260,17 @@ func vC09Corpus() []vPlan {
 		{Pre: vPreRelease, Targets: []int{0}, NoSend: true},
 		{Client: 0, Size: 300, Pre: vPreWaitEnded, Expect: 1}, mk(0, 9000)}
 	ps = append(ps, p)
+	// datagrams of buf-1, buf, buf+1 bytes for reader buffers of 9000, 2048, 100 and 1 bytes (a datagram that
+	// fits the buffer exactly is consumed entirely: the next Read must wait, not return an empty read or EOF)
+	for _, match := range []bool{false, true} {
+		p = vPlan{Name: fmt.Sprintf("exact-fit-reads-match=%v", match), NClients: 4, Match: match, Kinds: map[string]vHKind{
+			"0/*": {Mode: vHEcho, Buf: 9000}, "1/*": {Mode: vHEcho, Buf: 2048}, "2/*": {Mode: vHEcho, Buf: 100}, "3/*": {Mode: vHEcho, Buf: 1}}}
+		for _, d := range []int{-1, 0, 1, 0} {
+			p.Sends = append(p.Sends, mk(0, 9000+d-boolInt(d > 0)), mk(1, 2048+d), mk(2, 100+d), mk(3, 17+d))
+		}
+		p.Sends = append(p.Sends, mk(0, 2048), mk(1, 9000), mk(0, 2047), mk(1, 2049), mk(2, 2048))
+		ps = append(ps, p)
+	}
 	// one interleaved plan per client address set (clients differ in port / IP / IPv6 zone / family / type only)
 	for k := 1; k < vC09AddrKinds; k++ {
 		p = vPlan{Name: fmt.Sprintf("address-set-%d", k), NClients: 4, Addrs: k, Kinds: map[string]vHKind{"2/*": {Mode: vHReadN, N: 2, Buf: 9000}}}
@@ -228,8 +290,10 @@ func vC09Random(r *vRng, idx int) vPlan {
 	p := vPlan{Name: fmt.Sprintf("random-%d", idx), NClients: 1 + r.Intn(4), Kinds: map[string]vHKind{}}
 	p.Real = r.Intn(5) == 0
 	p.Addrs = r.Intn(vC09AddrKinds)
-	bufs := []int{9000, 9000, 4096, 1024, 512, 100}
+	p.Match = r.Intn(4) == 0
+	bufs := vC09Bufs
 	small := map[int]bool{}
+	bufOf := map[int]int{}
 	stall := false
 	readers := map[int]bool{}
 	for c := 0; c < p.NClients; c++ {
@@ -255,6 +319,7 @@ func vC09Random(r *vRng, idx int) vPlan {
 		}
 		p.Kinds[fmt.Sprintf("%d/*", c)] = k
 		small[c] = k.Buf > 0 && k.Buf < 512
+		bufOf[c] = k.Buf
 	}
 	total := 2 + r.Intn(40)
 	if r.Intn(4) == 0 {
@@ -262,14 +327,8 @@ func vC09Random(r *vRng, idx int) vPlan {
 	}
 	for i := 0; i < total; i++ {
 		c := r.Intn(p.NClients)
-		sz := vC09Sizes[r.Intn(len(vC09Sizes))]
-		if r.Intn(3) == 0 {
-			sz = vC09Hdr + r.Intn(9000-vC09Hdr+1)
-		}
+		sz := vC09PickSize(r, bufOf[c], small[c])
 		if p.Real && sz > 2000 && r.Intn(3) != 0 {
-			sz = vC09Hdr + r.Intn(1400)
-		}
-		if small[c] && sz > 1500 {
 			sz = vC09Hdr + r.Intn(1400)
 		}
 		s := vSend{Client: c, Size: sz}
@@ -287,9 +346,10 @@ func vC09Random(r *vRng, idx int) vPlan {
 
 // sequential plans: every handler reads and replies, the harness waits for each reply
 func vC09RandomSeq(r *vRng, idx int) vPlan {
-	p := vPlan{Name: fmt.Sprintf("sequential-%d", idx), Seq: true, NClients: 1 + r.Intn(3), Addrs: r.Intn(vC09AddrKinds), Kinds: map[string]vHKind{}}
-	bufs := []int{9000, 9000, 4096, 1024, 512, 100}
+	p := vPlan{Name: fmt.Sprintf("sequential-%d", idx), Seq: true, NClients: 1 + r.Intn(3), Addrs: r.Intn(vC09AddrKinds), Match: r.Intn(4) == 0, Kinds: map[string]vHKind{}}
+	bufs := vC09Bufs
 	small := map[int]bool{}
+	bufOf := map[int]int{}
 	for c := 0; c < p.NClients; c++ {
 		var k vHKind
 		switch r.Intn(5) {
@@ -303,17 +363,12 @@ func vC09RandomSeq(r *vRng, idx int) vPlan {
 		}
 		p.Kinds[fmt.Sprintf("%d/*", c)] = k
 		small[c] = k.Buf > 0 && k.Buf < 512
+		bufOf[c] = k.Buf
 	}
 	total := 3 + r.Intn(22)
 	for i := 0; i < total; i++ {
 		c := r.Intn(p.NClients)
-		sz := vC09Sizes[r.Intn(len(vC09Sizes))]
-		if r.Intn(3) == 0 {
-			sz = vC09Hdr + r.Intn(9000-vC09Hdr+1)
-		}
-		if small[c] && sz > 1500 {
-			sz = vC09Hdr + r.Intn(1400)
-		}
+		sz := vC09PickSize(r, bufOf[c], small[c])
 		s := vSend{Client: c, Size: sz}
 		if r.Intn(10) == 0 {
 			s.Pre = vPreRelease // lets an idled-out handler return (its Close notifies a second time)
@@ -393,6 +448,7 @@ type vC09Assoc struct {
 	newPos  int
 	release chan struct{}
 	idleGo  chan struct{}
+	idled   atomic.Bool // the harness has made the idle timer fire
 	pc      *packetConn
 	inRead  atomic.Bool
 }
@@ -544,6 +600,23 @@ func (p *vC09PC) SetDeadline(time.Time) error      { return nil }
 func (p *vC09PC) SetReadDeadline(time.Time) error  { return nil }
 func (p *vC09PC) SetWriteDeadline(time.Time) error { return nil }
 
+// a matcher that needs one byte: the route list prefetches (one 2048-byte Read) before the handler runs
+type vC09Matcher struct{}
+
+var vC09RegisterMatcher sync.Once
+
+func (vC09Matcher) CaddyModule() caddy.ModuleInfo {
+	return caddy.ModuleInfo{ID: "layer4.matchers.verif_c09", New: func() caddy.Module { return new(vC09Matcher) }}
+}
+
+func (m *vC09Matcher) Match(cx *Connection) (bool, error) {
+	b := make([]byte, 1)
+	if _, err := io.ReadFull(cx, b); err != nil {
+		return false, err
+	}
+	return true, nil
+}
+
 // ---------------------------------------------------------------- scripted handler
 
 type vC09Run struct {
@@ -581,6 +654,8 @@ func (r *vC09Run) handle(cx *Connection) error {
 	var cur *vC09Head // datagram being read in pieces
 	curOff := 0
 	complete := 0
+	var pre []byte // pieces of a datagram whose header is not complete yet (read buffers below 16 bytes)
+	var preLens []int
 	idling := false
 	ended := func(ev string) {
 		l.mu.Lock()
@@ -590,7 +665,7 @@ func (r *vC09Run) handle(cx *Connection) error {
 		}
 		l.mu.Unlock()
 	}
-	if k.Deadline && mode == vHEcho {
+	if k.Deadline && mode == vHEcho && !r.plan.Match {
 		_ = cx.SetReadDeadline(time.Now().Add(-2 * time.Second))
 		_, err := cx.Read(buf)
 		if errors.Is(err, os.ErrDeadlineExceeded) {
@@ -622,6 +697,7 @@ func (r *vC09Run) handle(cx *Connection) error {
 						return
 					case <-time.After(3 * time.Millisecond):
 						if a.inRead.Load() && pconn.idleTimer != nil {
+							a.idled.Store(true)
 							pconn.idleTimer.Reset(time.Millisecond)
 						}
 					}
@@ -650,6 +726,42 @@ func (r *vC09Run) handle(cx *Connection) error {
 						cur = nil
 					}
 				}
+			} else if len(pre)+m < vC09Hdr {
+				// a reader with a tiny buffer: the header is not complete yet, hold the pieces back
+				pre = append(pre, chunk...)
+				preLens = append(preLens, m)
+			} else if len(pre) > 0 {
+				// the header is complete now: identify the datagram and log the pieces that were held back
+				pre = append(pre, chunk...)
+				preLens = append(preLens, m)
+				h, ok := vC09Parse(pre)
+				var want []byte
+				if ok && h.kind == 0 && h.size <= 9000 {
+					want = vC09Payload(h.client, h.id, h.size)
+				}
+				if want == nil || len(pre) > len(want) || !bytes.Equal(pre, want[:len(pre)]) {
+					l.fail("C09:demux:corrupt-payload", fmt.Sprintf("association #%d of client %d read %d bytes that are not the beginning of any datagram sent", a.cord, client, len(pre)))
+					l.add(fmt.Sprintf("ORead %d (-1) true 0 %d", a.ord, len(pre)))
+				} else {
+					off := 0
+					for i, n := range preLens {
+						pos := l.add(fmt.Sprintf("ORead %d %d %v %d %d", a.ord, h.id, i == 0, off, n))
+						a.reads = append(a.reads, vC09Read{h.id, off, n, i == 0, pos})
+						off += n
+					}
+					if h.client != client {
+						l.fail("C09:demux:wrong-client", fmt.Sprintf("association #%d of client %d read datagram %d, which was sent by client %d", a.cord, client, h.id, h.client))
+					}
+					if prev, dup := l.readBy[h.id]; dup {
+						l.fail("C09:demux:duplicate-delivery", fmt.Sprintf("datagram %d was delivered twice (associations %d and %d)", h.id, prev, a.ord))
+					}
+					l.readBy[h.id] = a.ord
+					if off < h.size {
+						hh := h
+						cur, curOff = &hh, off
+					}
+				}
+				pre, preLens = nil, nil
 			} else {
 				h, ok := vC09Parse(chunk)
 				var want []byte
@@ -675,7 +787,7 @@ func (r *vC09Run) handle(cx *Connection) error {
 					}
 				}
 			}
-			done := cur == nil
+			done := cur == nil && len(pre) == 0
 			var last vC09Read
 			if len(a.reads) > 0 {
 				last = a.reads[len(a.reads)-1]
@@ -726,6 +838,14 @@ func (r *vC09Run) handle(cx *Connection) error {
 		}
 		if err != nil {
 			if errors.Is(err, io.EOF) {
+				l.mu.Lock()
+				if a.idled.Load() {
+					l.add(fmt.Sprintf("OIdle %d", a.ord))
+				} else {
+					// nobody closed this association and its idle timer (30 s) was not touched
+					l.fail("C09:read:spurious-eof", fmt.Sprintf("association #%d of client %d: Read returned io.EOF (after %d complete datagrams, read buffer %d bytes) although the association was neither closed nor idle: the virtual connection ends and queued datagrams are lost", a.cord, client, complete, bufSize))
+				}
+				l.mu.Unlock()
 				ended(fmt.Sprintf("OEof %d", a.ord))
 			} else if errors.Is(err, os.ErrDeadlineExceeded) {
 				l.mu.Lock()
@@ -796,7 +916,21 @@ func vC09ExecOnce(plan *vPlan, settle time.Duration) vC09Result {
 	}
 	run := &vC09Run{plan: plan, log: l, pc: pc}
 	srv := &Server{logger: zap.NewNop()}
-	srv.compiledRoute = RouteList{}.Compile(zap.NewNop(), 2*time.Second, HandlerFunc(run.handle))
+	var matchLogs *observer.ObservedLogs
+	if plan.Match {
+		vC09RegisterMatcher.Do(func() { caddy.RegisterModule(vC09Matcher{}) })
+		ctx, cancel := caddy.NewContext(caddy.Context{Context: context.Background()})
+		defer cancel()
+		routes := RouteList{&Route{MatcherSetsRaw: caddyhttp.RawMatcherSets{caddy.ModuleMap{"verif_c09": json.RawMessage("{}")}}}}
+		if err := routes.Provision(ctx); err != nil {
+			panic(err)
+		}
+		core, logs := observer.New(zapcore.WarnLevel)
+		matchLogs = logs
+		srv.compiledRoute = routes.Compile(zap.New(core), 2*time.Second, HandlerFunc(run.handle))
+	} else {
+		srv.compiledRoute = RouteList{}.Compile(zap.NewNop(), 2*time.Second, HandlerFunc(run.handle))
+	}
 	loopDone := make(chan struct{})
 	go func() { _ = srv.servePacket(pc); close(loopDone) }()
 
@@ -990,6 +1124,18 @@ func vC09ExecOnce(plan *vPlan, settle time.Duration) vC09Result {
 
 	l.mu.Lock()
 	defer l.mu.Unlock()
+	if matchLogs != nil {
+		for _, e := range matchLogs.All() {
+			if e.Message != "matching connection" {
+				continue
+			}
+			for _, f := range e.Context {
+				if err, ok := f.Interface.(error); ok && f.Key == "error" && errors.Is(err, io.EOF) {
+					l.fail("C09:read:spurious-eof", "matching was aborted with io.EOF although the association was neither closed nor idle: "+fmt.Sprint(e.ContextMap()["remote"]))
+				}
+			}
+		}
+	}
 	vC09Oracle(l)
 	res := vC09Result{}
 	for _, f := range l.fails {
